@@ -67,6 +67,24 @@ ORDER = ["solve", "symeig", "svd", "rootfinder", "equilibrium", "minimize", "sol
          "Interp1D", "SQuad"]
 
 
+# option / input deviations that drive a scenario through a rarely used branch of the implementation
+#   maxrank : Broyden with a finite max_rank (rank reduction of the low-rank inverse Jacobian)
+#   singE   : solve with a shift E that is EXACTLY an eigenvalue of a diagonal A (the direct solve first raises
+#             LinAlgError and is retried with a regularised matrix)
+#   diag    : symeig of a diagonal matrix (exact eigenvalues: the shifted solves of the implicit backward are
+#             exactly singular and take the same retry branch)
+VARIANTS = []
+for _fn in ("rootfinder", "equilibrium", "minimize"):
+    for _m in ("broyden1", "broyden2"):
+        VARIANTS.append((_fn, _m, "pure", "maxrank"))
+        VARIANTS.append((_fn, _m, "edmod", "maxrank"))
+for _m in ("exactsolve", "custom_exactsolve", "cg"):
+    VARIANTS.append(("solve", _m, "dense", "singE"))
+VARIANTS.append(("solve", "exactsolve", "mfree", "singE"))
+for _m in ("exacteig", "custom_exacteig", "davidson"):
+    VARIANTS.append(("symeig", _m, "dense", "diag"))
+
+
 def cases(tier, seed):
     out = []
     for fn in ORDER:
@@ -78,6 +96,12 @@ def cases(tier, seed):
                     depth = 3 if (fn, m) in EXPENSIVE else 4
                     for f in EVENTS:
                         out.append({"functional": fn, "method": m, "kind": k, "depth": depth, "first": f})
+    for (fn, m, k, var) in VARIANTS:
+        if tier == "quick":
+            out.append({"functional": fn, "method": m, "kind": k, "depth": 2, "first": "*", "variant": var})
+        else:
+            for f in EVENTS:
+                out.append({"functional": fn, "method": m, "kind": k, "depth": 3, "first": f, "variant": var})
     return out
 
 
@@ -121,10 +145,22 @@ class World:
 
     def __init__(self, cfg):
         fn, m = cfg["functional"], cfg["method"]
-        self.sc = S.make(fn, cfg["kind"], 0)
+        var = cfg.get("variant")
+        self.sc = S.make(fn, cfg["kind"], 0, **({"withE": True} if var == "singE" else {}))
         self.sc.track = False
         self.fn, self.m = fn, m
         self.fwd = _opts(fn, m)
+        if var == "maxrank":
+            self.fwd["max_rank"] = 3
+        elif var == "singE":
+            sc = self.sc
+            sc.a = torch.diag(torch.tensor([1.0, 2.0, 3.0], dtype=sc.a.dtype)).requires_grad_()
+            sc.E = torch.tensor([2.0, 0.5], dtype=sc.a.dtype).requires_grad_()
+            sc.leaves = [sc.a, sc.B, sc.E]
+        elif var == "diag":
+            sc = self.sc
+            sc.a = torch.diag(torch.tensor([1.0, 2.0, 3.5, 5.0], dtype=sc.a.dtype)).requires_grad_()
+            sc.leaves = [sc.a]
         if fn == "mcquad":
             self.fwd = self.sc.fix(m, self.fwd)
         g = gen(19)
@@ -262,7 +298,7 @@ def run_case(cfg):
         status = "skipped-other-property" if not alphabet else "partial:skipped-other-property"
     if viol:
         status = "violation"
-    obs = {"scenario": "%s/%s/%s" % (cfg["functional"], cfg["method"], cfg["kind"]), "events": alphabet, "skipped": skipped, "histories": len(hists), "table": table}
+    obs = {"scenario": "%s/%s/%s%s" % (cfg["functional"], cfg["method"], cfg["kind"], ("/" + cfg["variant"]) if cfg.get("variant") else ""), "events": alphabet, "skipped": skipped, "histories": len(hists), "table": table}
     return {"viol": list(viol.values()), "obs": obs, "trivial": not alphabet, "status": status, "n": n_exec,
             "states": len(states), "transitions": transitions}
 
